@@ -5,6 +5,7 @@ type InhibitRule struct {
 	Source []Matcher `json:"source"`
 	Target []Matcher `json:"target"`
 	Equal  []string  `json:"equal"`
+	Name   string    `json:"name,omitempty"` // optional, need not be unique, has no effect on the verdict
 }
 
 // Inhibits: the documented existential rule for one (source, target) pair.
